@@ -59,7 +59,35 @@ func checkC01(c *Ctx) {
 			c.Sample(map[string]interface{}{"source": src})
 		}
 	}
-	st := RunRefine(c, cases, 1500, "emitted assembly does not behave like the structured source", nil)
+	// the exhaustive small-program family enumerated by TLC from GenCtl.tla
+	level, nestEvery := 2, 16
+	if !c.Quick() {
+		level, nestEvery = 3, 1
+	}
+	outs := []string{"one.ndjson", "nest.ndjson"}
+	if level >= 3 {
+		outs = append(outs, "pair.ndjson")
+	}
+	fam, ok := cachedGenModule(c, "GenCtl", map[string]int{"Level": level}, outs...)
+	if !ok {
+		return
+	}
+	var famProgs []*Prog
+	famProgs = append(famProgs, ctlPrograms(c, fam["one.ndjson"], "o", 1, 0)...)
+	famProgs = append(famProgs, ctlPrograms(c, fam["nest.ndjson"], "n", nestEvery, c.Seed)...)
+	if level >= 3 {
+		famProgs = append(famProgs, ctlPrograms(c, fam["pair.ndjson"], "p", 3, c.Seed)...)
+	}
+	for i, p := range famProgs {
+		src := RenderProg(p, Style{R: r, Layout: 0})
+		compileBoth(c, p.Scripts[0].Name, p, src, base, &cases, &rejected)
+		if i == 700 {
+			c.Sample(map[string]interface{}{"family": "GenCtl", "source": src})
+		}
+	}
+	c.Cov("genctl_programs", int64(len(famProgs)))
+	c.CovSet("genctl_one_exhaustive", len(fam["one.ndjson"]))
+	st := RunRefine(c, cases, 6000, "emitted assembly does not behave like the structured source", nil)
 	c.Cov("programs", int64(n))
 	c.Cov("cases", int64(st.Cases))
 	c.Cov("rejected_by_compiler", int64(rejected))
